@@ -733,3 +733,16 @@ Definition proposed (pf : bytes -> option N) (ns : bytes) (args : list bytes) (f
   | VWrite (LProp _ a) => Some a
   | _ => None
   end.
+
+(* with node.UseRedisV2 = true a single-key write is proposed as the raw command (RedisV2Req) and the
+   namespace is cut at apply time; merged writes (DEL, PLSET) always use the RedisReq form *)
+Definition proposed_v2 (pf : bytes -> option N) (ns : bytes) (args : list bytes) (f : fact) : option (list bytes) :=
+  match args with
+  | name0 :: _ =>
+    if is_merge_command (lower name0) then None
+    else match proposed pf ns args f with
+         | Some (n :: _ :: rest) => Some (n :: arg args 1 :: rest)
+         | _ => None
+         end
+  | [] => None
+  end.
